@@ -151,7 +151,9 @@ func NonCanonical(r *rand.Rand) []byte {
 		case 6: // NTP with fqdn
 			o = tlv(56, append(tlv(3, []byte{3, 'n', 't', 'p', 0}), tlv(1, gen4.Bytes(r, 16))...))
 		case 7: // elapsed time max, refresh time max
-			o = append(tlv(8, []byte{0xff, 0xff}), tlv(32, []byte{0xff, 0xff, 0xff, 0xff})...)
+			et := 0xffff - r.IntN(70) // elapsed time at and just below the maximum
+			rt := 0xffffffff - r.Uint32N(3)
+			o = append(tlv(8, []byte{byte(et >> 8), byte(et)}), tlv(32, be32(rt))...)
 		case 8: // IA_NA with address and status
 			a := append(gen4.Bytes(r, 16), append(be32(r.Uint32()), be32(r.Uint32())...)...)
 			a = append(a, tlv(13, append([]byte{0, byte(r.UintN(7))}, []byte("ok")...))...)
